@@ -78,10 +78,15 @@ package vm
 //@   modifies cell:[]byte, map:map[uint64][][]byte
 //@ end
 
-//@ func (*vm.StorageKey).JournalChanges
+//@ func (*vm.StorageKey).JournalChanges(k, callIdx, newVal)
 //@   verify
 //@   safety [C03]
 //@   requires recv: k != nil
+//@   ghost a u64 = 0
+//@   oncall (*vm.StorageChanges).append : a = a + 1
+//@   assertcall (*vm.StorageChanges).append appends-what-it-was-given [C10 C11 C13]: a == 0 && $0 != nil && $1 == callIdx && sameslice($2, newVal)
+//@   ensures appended-once [C10 C11 C13]: a == 1 && k.changes != nil
+//@   ensures list-kept [C10 C11 C13]: old(k.changes) != nil ==> k.changes == old(k.changes)
 //@   ensures work-bounded [C20]: work <= old(work) + uint64(len(newVal)) + 16
 //@   modifies cell:[]byte, map:map[uint64][][]byte, vm.StorageKey.changes, vm.StorageKey.nodeType
 //@ end
